@@ -92,6 +92,41 @@ def gen(files):
     print(n, 'mutants')
 
 
+def genswap(files):
+    """second operator family: exchange two adjacent single-line statements (ordering mutants)"""
+    os.makedirs(OUT, exist_ok=True)
+    have = {m['id'] for m in load('mutants.jsonl')}
+    n = 0
+    skip = ('debug_assert', 'tracing::', 'metrics', 'histogram!', 'counter!', 'trace!', 'debug!', 'panic!')
+    with open(os.path.join(OUT, 'mutants.jsonl'), 'a') as out:
+        for rel in files:
+            p = os.path.join(core.REPO, rel)
+            if not os.path.exists(p):
+                continue
+            src, end = production_lines(p)
+
+            def stmt(l):
+                c = l.split('//')[0].rstrip()
+                t = c.strip()
+                return bool(t) and t.endswith(';') and not t.startswith(('}', 'use ', '#[', 'pub ', 'const ', 'type ', 'return', 'break', 'continue')) and \
+                    c.count('(') == c.count(')') and c.count('{') == c.count('}') and not any(k in t for k in skip)
+            for i in range(end - 1):
+                a, b = src[i], src[i + 1]
+                if not (stmt(a) and stmt(b)):
+                    continue
+                if len(a) - len(a.lstrip()) != len(b) - len(b.lstrip()) or a.strip() == b.strip():
+                    continue
+                # a statement continuing the previous line (method chain) is not a statement of its own
+                if a.strip().startswith('.') or b.strip().startswith('.') or (i > 0 and not src[i - 1].split('//')[0].rstrip().endswith((';', '{', '}', ''))):
+                    continue
+                mid = f'{rel}:{i+1}:swap'
+                if mid in have:
+                    continue
+                out.write(json.dumps(dict(id=mid, file=rel, line=i + 1, op='swap adjacent statements', old=a, new=b, line2=i + 2, old2=b, new2=a)) + '\n')
+                n += 1
+    print(n, 'swap mutants')
+
+
 ALL_RULES = None
 
 
@@ -129,6 +164,9 @@ def scratch_with(m):
     src = open(p).read().split('\n')
     assert src[m['line'] - 1] == m['old'], 'tree changed since gen'
     src[m['line'] - 1] = m['new']
+    if 'line2' in m:
+        assert src[m['line2'] - 1] == m['old2'], 'tree changed since gen'
+        src[m['line2'] - 1] = m['new2']
     open(p, 'w').write('\n'.join(src))
     return d
 
@@ -302,6 +340,8 @@ if __name__ == '__main__':
     limit = int(a[a.index('--limit') + 1]) if '--limit' in a else 0
     if cmd == 'gen':
         gen([x for x in a[1:] if x.startswith('src/')] or FILES)
+    elif cmd == 'genswap':
+        genswap([x for x in a[1:] if x.startswith('src/')] or FILES)
     elif cmd == 'run':
         run(jobs, limit, [x for x in a[1:] if x.startswith('src/')])
     elif cmd == 'tests':
